@@ -151,13 +151,23 @@ theorem C15_direction_invalid (below nextTo : Line → Line → Res Bool) (ls : 
 
 /-- `baseline_is_below` is total on non-empty baselines: both start indexes are in range, the
     `while True` loop ends after `no` comparisons with `1 ≤ no < |b1| + |b2|`, every index
-    access succeeds, the division is by `no ≠ 0` -/
+    access succeeds, the division is by `no ≠ 0`; the answer is `nb / no > p/q` for the ratio `p/q` that the
+    source says (regenerated; `C15_ratio_half`: for `0.5` this is `2·nb > no`) — for every value of it -/
 theorem C15_baseline_below_total (b1 b2 : List Pt) (h1 : b1 ≠ []) (h2 : b2 ≠ []) :
     ∃ i1 i2 nb no, startIdx b2 b1 0 = .ok i1 ∧ startIdx b1 b2 0 = .ok i2 ∧ i1 < b1.length ∧ i2 < b2.length ∧
       walk b1 b2 (b1.length + b2.length + 1) i1 i2 0 0 = .ok (nb, no) ∧ 1 ≤ no ∧ no < b1.length + b2.length ∧
-      nb ≤ no ∧ baselineIsBelow b1 b2 = .ok (decide (2 * nb > no)) := by
+      nb ≤ no ∧ baselineIsBelow b1 b2 = .ok (ratioGt nb no Generated.C15.baselineBelowRatio) := by
   obtain ⟨i1, i2, nb, no, a, b, c, d, e, f, g, h, i, _⟩ := baselineIsBelow_spec b1 b2 h1 h2
   exact ⟨i1, i2, nb, no, a, b, c, d, e, f, g, h, i⟩
+
+/-- the cross-multiplied comparison at the ratio 1/2 is the majority test `2·nb > no` -/
+theorem C15_ratio_half (nb no : Nat) : ratioGt nb no (1, 2) = decide (2 * nb > no) := by
+  simp only [ratioGt]
+  congr 1
+  apply propext
+  constructor <;> intro h <;> omega
+
+example : ratioGt 3 5 (1, 2) = true ∧ ratioGt 2 4 (1, 2) = false := by decide
 
 /-- the condition is necessary: with an empty point list the function raises IndexError -/
 theorem C15_baseline_below_empty_raises (b1 b2 : List Pt) (h : b1 = [] ∨ b2 = []) :
@@ -175,6 +185,42 @@ theorem C15_baseline_below_empty_raises (b1 b2 : List Pt) (h : b1 = [] ∨ b2 = 
       cases ps with
       | nil => simp [baselineIsBelow, startIdx, walk, getPt]
       | cons q qs => simp [baselineIsBelow, startIdx, getPt]
+
+/-! ## the regenerated literals
+
+The model reads the overlap limit and the tolerances of `is_next_to`, the ratios of `sort_lines` and
+`baseline_is_below` and the threshold used by `PageXMLTextRegion.__lt__` from `Generated/C15.lean`,
+which is rewritten from the source on every run.  No proof in this development unfolds these
+constants except the four statements below: all other theorems hold for every value, and the
+clean-layout theorems hold whenever these four relations do. -/
+
+/-- `is_next_to` has ONE baseline tolerance (both tests carry the same literal): this is what makes
+    "next to" symmetric on the cells of a row, and it is the tolerance `rowTol` of the clean-layout
+    predicates.  Changing only one of the two literals breaks exactly this statement. -/
+theorem C15_consts_next_to_tolerances_equal :
+    Generated.C15.nextToTolTop = Generated.C15.nextToTolBottom ∧ rowTol = Generated.C15.nextToTolTop :=
+  ⟨consts_next_to_tolerances_equal, rfl⟩
+
+/-- horizontally disjoint lines pass the overlap limit of `is_next_to` -/
+theorem C15_consts_next_to_overlap_limit_nonneg : 0 ≤ Generated.C15.nextToMaxHOverlap :=
+  consts_next_to_overlap_limit_nonneg
+
+/-- the majority ratio of `baseline_is_below` lies in `[0, 1)` -/
+theorem C15_consts_baseline_below_ratio_proper :
+    0 ≤ Generated.C15.baselineBelowRatio.1 ∧ Generated.C15.baselineBelowRatio.1 < Generated.C15.baselineBelowRatio.2 :=
+  consts_baseline_below_ratio_proper
+
+/-- the overlap threshold of `PageXMLTextRegion.__lt__` is a non-negative fraction -/
+theorem C15_consts_region_overlap_threshold_nonneg :
+    0 ≤ Generated.C15.regionHOverlapThr.1 ∧ 0 < Generated.C15.regionHOverlapThr.2 :=
+  consts_region_overlap_threshold_nonneg
+
+/-- the reading of "aligned rows" that the harness oracle judges (baselines of one row within 10
+    pixels of each other) is covered by the clean-layout theorems: the tolerance of the source is at
+    least that.  A smaller tolerance in the source breaks this statement — and the oracle then finds
+    rows aligned within 10 pixels that are no longer grouped. -/
+def specRowTol : Int := 10
+theorem C15_consts_row_tolerance_covers_spec : specRowTol ≤ rowTol := by decide
 
 /-! ## clean layouts -/
 
